@@ -8,7 +8,7 @@
    Specification: RH.Lex.LexSpec (slice16, lexeme_ok, relex_prop). *)
 From Coq Require Import List NArith Arith Bool.
 Import ListNotations.
-From RH Require Import Text.Contents Text.ContentsProofs Text.Reader Text.ReaderProofs Text.ReaderInv
+From RH Require Import Text.Contents Text.ContentsProofs Text.LineTable Text.Reader Text.ReaderProofs Text.ReaderInv
   Lex.LangLexer Lex.LexSpec Lex.LangLexerProofs Lex.LangLexerSlices Lex.LangLexerNoCrash Lex.LangLexerComments Lex.LangLexerText Lex.LangLexerRelex Lex.LangLexerRelex4 Lex.C11Examples.
 Open Scope N_scope.
 
@@ -185,6 +185,21 @@ Example C11_relex_example :
     Forall (fun t => relex_prop t (slice_of_text relex_example_text (t_s t) (t_e t))) toks.
 Proof. exact relex_example. Qed.
 
+(* From the ORIGINAL text to the line table (Contents::from_str = split_lines; from_latin1_file =
+   split_lines after decoding): the table's text is the original text with CR LF / CR replaced by LF and
+   nothing else changed, and split_lines s is the only canonical table with that text.  All position
+   theorems above are stated with slice_of_text on the original text s. *)
+Theorem C11_line_table_text : forall s, concat (split_lines s) = normalize_eol s.
+Proof. exact line_table_text. Qed.
+Theorem C11_line_table_unique : forall s d, cdoc d -> concat d = normalize_eol s -> d = split_lines s.
+Proof. exact line_table_unique. Qed.
+Theorem C11_line_table_keeps_characters : forall s,
+  filter (fun c => negb ((c =? LF) || (c =? CR))) (concat (split_lines s))
+  = filter (fun c => negb ((c =? LF) || (c =? CR))) s.
+Proof. exact line_table_keeps_characters. Qed.
+Example C11_bom_not_dropped : split_lines [65279; 101] <> split_lines [101].
+Proof. exact bom_not_dropped. Qed.
+
 (* (f) Files are decoded as ISO-8859-1: iso_8859_1_to_utf8 followed by UTF-8 decoding is the identity
    on code points 0..255, every character is one UTF-16 unit, so a column is a byte offset. *)
 Theorem C11_decode_latin1_id : forall bytes, Forall (fun b => b < 256) bytes -> decode_latin1 bytes = bytes.
@@ -258,6 +273,10 @@ Print Assumptions C11_relex_clean_literals.
 Print Assumptions C11_relex_clean_identifier.
 Print Assumptions C11_relex_identifier_warning.
 Print Assumptions C11_relex_example.
+Print Assumptions C11_line_table_text.
+Print Assumptions C11_line_table_unique.
+Print Assumptions C11_line_table_keeps_characters.
+Print Assumptions C11_bom_not_dropped.
 Print Assumptions C11_decode_latin1_id.
 Print Assumptions C11_latin1_columns.
 Print Assumptions C11_token_ranges_ordered.
